@@ -186,14 +186,17 @@ pub fn run(env: &Env) {
             }
         }
     }
-    env.ctx.set_rule("(A) roots = honest proofs over suites x L in 0..=4 (thorough 0..=5) x ALL disclosure sets x {(none,none),(16B,16B)} header/ph; from each root every single edit: disclosed message bit flips / replace / byte truncate / byte extend / swap / drop / insert; each index := every value in 0..=L+1, drop, duplicate, swap; add a disclosure at every free position; header and ph := every alphabet element, bit flips, extend, truncate; pk := every other key; remove each m^_j; append zero/copy/fresh scalar; truncate/extend by 32 and 64 octets; every single-bit flip of every proof octet (quick: 8 proofs; thorough: all); other suite; blind interface. Thorough: all ordered pairs of structural edits. Index lists that are not strictly ascending (swapped indexes, repeated indexes with another message, swapped pairs) are outside the drafts' precondition: the verifier may refuse them, but a VIOLATION is raised when it accepts a claim containing a (position, message) pair that the proof does not disclose. (C) forgery families from public data only: Abar,Bbar in 6 points x D in 9 points x response slopes {0,1,-1}^(3+U) (+ -1/k when D = k*Bv), U in {0,1}, through from_bytes and through serde. State = edited statement / forged proof; non-trivial = the real verifier ran and its verdict was compared with the semantic (and reference) verdict.");
+    // header, presentation header and one disclosed message longer than 2^16 octets (tail edits must be noticed)
+    for s in suites() { let long = ("70000B".to_string(), Some(mccore::fill(seed, "c04-long", 70000))); roots.push(Root { id: format!("{}/L2/D[0]/h=70000B/ph=70000B/structural", s.name()), suite: s, key: key(s, "k0"), hn: long.0.clone(), header: long.1.clone(), pn: long.0.clone(), ph: long.1.clone(), l: 2, d: vec![0], flips: (0, 0) }); }
+    env.ctx.set_rule("one root per suite with 70000-octet header, presentation header and disclosed message. (A) roots = honest proofs over suites x L in 0..=4 (thorough 0..=5) x ALL disclosure sets x {(none,none),(16B,16B)} header/ph; from each root every single edit: disclosed message bit flips / replace / byte truncate / byte extend / swap / drop / insert; each index := every value in 0..=L+1, drop, duplicate, swap; add a disclosure at every free position; header and ph := every alphabet element, bit flips, extend, truncate; pk := every other key; remove each m^_j; append zero/copy/fresh scalar; truncate/extend by 32 and 64 octets; every single-bit flip of every proof octet (quick: 8 proofs; thorough: all); other suite; blind interface. Thorough: all ordered pairs of structural edits. Index lists that are not strictly ascending (swapped indexes, repeated indexes with another message, swapped pairs) are outside the drafts' precondition: the verifier may refuse them, but a VIOLATION is raised when it accepts a claim containing a (position, message) pair that the proof does not disclose. (C) forgery families from public data only: Abar,Bbar in 6 points x D in 9 points x response slopes {0,1,-1}^(3+U) (+ -1/k when D = k*Bv), U in {0,1}, through from_bytes and through serde. State = edited statement / forged proof; non-trivial = the real verifier ran and its verdict was compared with the semantic (and reference) verdict.");
     env.ctx.extra("deviation_bound_completed", json!(bound));
     par_for(&roots, |_, r| {
         if !env.want(&r.id) || env.ctx.out_of_time() { return; }
         let zk = z(r.suite);
         let k = &r.key;
-        let msgs = distinct_msgs(seed, "c04", r.l);
-        let det0 = json!({"suite": r.suite.name(), "L": r.l, "disclosed": r.d, "header": r.hn, "ph": r.pn, "messages": hexv(&msgs)});
+        let mut msgs = distinct_msgs(seed, "c04", r.l);
+        if r.hn == "70000B" { msgs[0] = mccore::fill(seed, "c04-long-msg", 70000); }
+        let det0 = json!({"suite": r.suite.name(), "L": r.l, "disclosed": r.d, "header": r.hn, "ph": r.pn, "messages": hexv(&msgs.iter().map(|m| m[..m.len().min(64)].to_vec()).collect::<Vec<_>>())});
         let sig = match zk.sign(&k.sk, &k.pk, oh(&r.header), Some(&msgs)) { O::Ok(s) => s, o => { env.ctx.violation("C04:base-sign-failed", &o.describe(), env.case(&r.id, det0)); return; } };
         let proof = match zk.proof_gen(&k.pk, &sig, oh(&r.header), oh(&r.ph), Some(&msgs), Some(&r.d)) { O::Ok(p) => p, o => { env.ctx.violation("C04:base-proof-gen-failed", &o.describe(), env.case(&r.id, det0)); return; } };
         env.ctx.steps(2);
@@ -239,7 +242,8 @@ pub fn run(env: &Env) {
         env.ctx.add_extra("edit_transitions", tr);
     });
     crate::hist::explore_families(env, &['P'], "proof verification histories");
-    forgery_family(env);
+    forgery_family(env, false);
+    forgery_family(env, true);
 }
 
 // ---------------------------------------------------------------------------------------------------------------
@@ -253,15 +257,18 @@ fn sc_hex(json_be: bool, s: &Scalar) -> String {
     hex::encode(b)
 }
 
-pub fn forgery_family(env: &Env) {
+/// `blind`: the same family presented to blind_proof_verify (blind api_id and generators; the forger claims L signer
+/// messages, all disclosed, and U - 1 committed messages, so U >= 1: the never-disclosed prover blind).
+pub fn forgery_family(env: &Env, blind: bool) {
     let seed = env.ctx.seed;
     struct Fr { id: String, suite: Suite, u: usize, ia: usize, ib: usize }
     let mut roots = Vec::new();
     let maxu = if env.thorough() { 2usize } else { 1 };
-    for s in suites() { for u in 0..=maxu { for ia in 0..6 { for ib in 0..6 {
+    for s in suites() { for u in (if blind { 1 } else { 0 })..=maxu { for ia in 0..6 { for ib in 0..6 {
+        if blind && !env.thorough() && !([0usize, 3, 4].contains(&ia) && [0usize, 3, 4].contains(&ib)) { continue; }
         // quick: U=0 in full; U=1 for Abar,Bbar in {O, Bv, Abar*}; thorough: everything, U up to 2
         if !env.thorough() && u == 1 && !([0usize, 3, 4].contains(&ia) && [0usize, 3, 4].contains(&ib)) { continue; }
-        roots.push(Fr { id: format!("forge/{}/U{}/Abar{}/Bbar{}", s.name(), u, ia, ib), suite: s, u, ia, ib }); } } } }
+        roots.push(Fr { id: format!("forge{}/{}/U{}/Abar{}/Bbar{}", if blind { "-blind" } else { "" }, s.name(), u, ia, ib), suite: s, u, ia, ib }); } } } }
     par_for(&roots, |_, r| {
         if !env.want(&r.id) || env.ctx.out_of_time() { return; }
         let s = r.suite;
@@ -274,8 +281,8 @@ pub fn forgery_family(env: &Env) {
         let rcount = l - r.u;
         let claimed: Vec<Vec<u8>> = (0..rcount).map(|i| format!("forged claim {}", i).into_bytes()).collect();
         let idx: Vec<usize> = (0..rcount).collect();
-        let api = s.api_id();
-        let gens = refbbs::create_generators(s, l + 1, &api);
+        let api = if blind { s.api_id_blind() } else { s.api_id() };
+        let gens = if blind { refbbs::blind_all_generators(s, rcount, r.u - 1) } else { refbbs::create_generators(s, l + 1, &api) };
         let (Q1, H) = (gens[0], &gens[1..]);
         let pk96: [u8; 96] = victim.pk.clone().try_into().unwrap();
         let domain = refbbs::calculate_domain(s, &pk96, &Q1, H, &header, &api).unwrap();
@@ -321,12 +328,12 @@ pub fn forgery_family(env: &Env) {
                     let name = format!("{}/D{}/slopes{:?}+r3#{}", r.id, id, combo, r3i);
                     env.ctx.state(&[name.as_bytes()]);
                     let det = json!({"suite": s.name(), "victim_key": "k1 (no signature ever produced under it)", "Abar": AB[r.ia], "Bbar": AB[r.ib], "D": DN[id], "slopes(e,r1,r3,m..)": format!("{:?} r3#{}", combo, r3i), "U": r.u, "proof": hex::encode(&bytes), "header": hex::encode(&header), "ph": hex::encode(&ph), "claimed_messages": hexv(&claimed), "idx": idx});
-                    let got = zk.proof_verify(&victim.pk, &bytes, Some(&header), Some(&ph), Some(&claimed), Some(&idx));
+                    let got = if blind { zk.blind_proof_verify(&victim.pk, &bytes, Some(&header), Some(&ph), Some(rcount), Some(&claimed), None, Some(&idx), None) } else { zk.proof_verify(&victim.pk, &bytes, Some(&header), Some(&ph), Some(&claimed), Some(&idx)) };
                     let degenerate = bool::from(Abar.is_identity()) || bool::from(Bbar.is_identity()) || bool::from(D.is_identity());
                     let cls = if degenerate { "forgery:identity-point" } else { "forgery:public-points" };
-                    expect(env, &r.id, &format!("proof_verify(forged proof {})", name), &got, false, &format!("{}:octets", cls), det.clone());
-                    if (env.thorough() || degenerate || got.is_ok()) && refbbs::proof_verify(s, &victim.pk, &bytes, &header, &ph, &claimed, &idx).is_ok() { env.machinery(&format!("reference accepted forged proof {}", name)); }
-                    if let Some(be) = json_be {
+                    expect(env, &r.id, &format!("{}(forged proof {})", if blind { "blind_proof_verify" } else { "proof_verify" }, name), &got, false, &format!("{}:octets{}", cls, if blind { ":blind" } else { "" }), det.clone());
+                    if (env.thorough() || degenerate || got.is_ok()) && (if blind { refbbs::blind_proof_verify(s, &victim.pk, &bytes, &header, &ph, rcount, &claimed, &[], &idx, &[]) } else { refbbs::proof_verify(s, &victim.pk, &bytes, &header, &ph, &claimed, &idx) }).is_ok() { env.machinery(&format!("reference accepted forged proof {}", name)); }
+                    if let (Some(be), false) = (json_be, blind) {
                         let j = json!({"BBSplus": {"Abar": hex::encode(refbbs::g1_bytes(&Abar)), "Bbar": hex::encode(refbbs::g1_bytes(&Bbar)), "D": hex::encode(refbbs::g1_bytes(D)), "e_cap": sc_hex(be, &resp[0]), "r1_cap": sc_hex(be, &resp[1]), "r3_cap": sc_hex(be, &resp[2]), "m_cap": resp[3..].iter().map(|x| sc_hex(be, x)).collect::<Vec<_>>(), "challenge": sc_hex(be, &c)}}).to_string();
                         let gj = zk.proof_verify_json(&victim.pk, &j, Some(&header), Some(&ph), Some(&claimed), Some(&idx));
                         expect(env, &r.id, &format!("proof_verify(serde-constructed forged proof {})", name), &gj, false, &format!("{}:serde", cls), det);
